@@ -132,6 +132,14 @@ func vSkeleton(id int) []string {
 		return []string{"a", "ab", "b", "c"}
 	case 22:
 		return []string{"", "k", "ka", "kb", "z"}
+	case 12, 13: // lengths on and around 32/64/128/256 bytes (13: with diverging siblings)
+		return vLenDiverse(id - 12)
+	case 14: // a key that is also an inner node with all 16 high-nibble branches (17 labels)
+		ks := []string{"k"}
+		for h := 0; h < 16; h++ {
+			ks = append(ks, string([]byte{'k', byte(h << 4)}), string([]byte{'k', byte(h<<4 | 0x0f), 'z'}))
+		}
+		return vUniqSorted(ks)
 	case 0: // the README example
 		return []string{"abc", "abcd", "abd", "abde", "bc", "bcd", "bcde", "cde"}
 	case 1: // keys that are prefixes of other keys, the empty key, 0x00/0xff neighbours
@@ -232,6 +240,29 @@ func vSkeleton(id int) []string {
 	panic("unknown skeleton")
 }
 
+// vLenDiverse: keys whose lengths sit on and around 32/64/128/256-byte boundaries: a chain
+// of prefixes of one 300-byte pattern (lengths 0, 1, 31, 32, 33, 63, 64, 65, 127, 128, 129,
+// 255, 256, 257, 300), plus for kind 1 a diverging sibling (prefix + 0xff + 40 bytes) at
+// every length.  Short and very long keys live in one index.
+func vLenDiverse(kind int) []string {
+	base := make([]byte, 300)
+	for i := range base {
+		base[i] = byte('a' + (i*7+i/13)%23)
+	}
+	var ks []string
+	for _, l := range []int{0, 1, 31, 32, 33, 63, 64, 65, 127, 128, 129, 255, 256, 257, 300} {
+		ks = append(ks, string(base[:l]))
+		if kind == 1 {
+			sib := append(append([]byte{}, base[:l]...), 0xff)
+			for j := 0; j < 40; j++ {
+				sib = append(sib, byte('A'+j%5))
+			}
+			ks = append(ks, string(sib))
+		}
+	}
+	return vUniqSorted(ks)
+}
+
 func vSorted(ks []string) []string {
 	// insertion sort (tiny inputs, concrete)
 	for i := 1; i < len(ks); i++ {
@@ -257,6 +288,16 @@ func vConcreteValues(c *vT, runs int) {
 		c.u16 = make([]uint16, n)
 		for i := range c.u16 {
 			c.u16[i] = uint16(val(i))
+		}
+	case vEncOpt:
+		// every third run of values is 0 (encodes to zero bytes: an absent leaf)
+		c.u16 = make([]uint16, n)
+		for i := range c.u16 {
+			v := val(i)
+			if (v/7)%3 == 1 {
+				v = 0
+			}
+			c.u16[i] = uint16(v)
 		}
 	case vEncStr:
 		c.str = make([]string, n)
